@@ -287,7 +287,7 @@ impl<'a, T> ChordsV2<'a, T> {
 
         self.drain_virtual_keys(drainq);
         self.drain_releases(drainq);
-        self.process_presses(active_layer);
+        self.process_presses(active_layer, drainq);
     }
 
     fn drain_virtual_keys(&mut self, drainq: &mut SmolQueue) {
@@ -326,7 +326,7 @@ impl<'a, T> ChordsV2<'a, T> {
         })
     }
 
-    fn process_presses(&mut self, active_layer: u16) {
+    fn process_presses(&mut self, active_layer: u16, drainq: &mut SmolQueue) {
         let mut presses = HVec::<u16, PRESSES_LEN>::new();
         let mut relevant_release_found = false;
         for qd in self.queue.iter() {
@@ -544,6 +544,15 @@ impl<'a, T> ChordsV2<'a, T> {
                     }
                     None => true,
                 },
+                Event::Release(0, j) if consumed.contains(&j) => {
+                    // This release is queued ahead of the press that formed the chord,
+                    // so it ends an earlier press of the key, e.g. one that timed out on its
+                    // own before. It must reach the layout but must not count as the release
+                    // of the new chord's key.
+                    let overflow = drainq.push_back(*qd);
+                    assert!(overflow.is_none(), "oops overflowed drain queue");
+                    false
+                }
                 _ => true,
             });
         }
